@@ -46,7 +46,11 @@ Bind  == { [Base EXCEPT !.sub = "bind", !.alg = a, !.recipient = r, !.validate =
              a \in BindAlgs, r \in {"absent", "match", "mismatch", "samekey"}, v \in BOOLEAN, c \in {"valid", "empty", "garbage"},
              rs \in BOOLEAN, d \in BOOLEAN } \cup
          { [Base EXCEPT !.sub = "bind", !.alg = a, !.keycfg = "rotating", !.validate = v, !.rootsigned = rs] : a \in BindAlgs, v \in BOOLEAN, rs \in BOOLEAN } \cup
-         { [Base EXCEPT !.sub = "bind", !.alg = a, !.shape = "staleKey", !.recipient = r] : a \in BindAlgs, r \in {"absent", "match"} }
+         { [Base EXCEPT !.sub = "bind", !.alg = a, !.shape = "staleKey", !.recipient = r] : a \in BindAlgs, r \in {"absent", "match"} } \cup
+         \* key rotation at run time: the deprecated field still holds the OLD pair in a TLS store, SetSPKeyStore gave the
+         \* current one.  "oldkey": the message is encrypted to the old key and names the old certificate
+         { [Base EXCEPT !.sub = "bind", !.alg = a, !.keycfg = "bothDiff", !.recipient = r, !.validate = v] :
+             a \in BindAlgs, r \in {"absent", "match", "oldkey"}, v \in BOOLEAN }
 PadShapes == {"pad_zero", "pad_big", "all_zero", "pad_then_zeros", "pad_block_plus"}
 Shape == { x \in { [Base EXCEPT !.sub = "shape", !.alg = a, !.kt = k, !.shape = s] : a \in ShapeAlgs, k \in ShapeKts, s \in Shapes } :
              (x.shape \in PadShapes => x.alg \notin GCM) }
@@ -75,7 +79,7 @@ CertRefused(cfg, in) == in.validate /\ (in.certform # "valid" \/ ~InWindow(cfg.n
 \* certificate must equal the SP's configured certificate octets
 \* "samekey": the certificate shown is a DIFFERENT certificate issued over the SP's own public key (a re-issue,
 \* an expired predecessor): not the SP's configured certificate, hence refused like any other
-RecipientRefused(in) == in.recipient \in {"mismatch", "samekey"} \/ (in.recipient = "match" /\ in.certform # "valid") \/ in.shape = "staleKey"
+RecipientRefused(in) == in.recipient \in {"mismatch", "samekey", "oldkey"} \/ (in.recipient = "match" /\ in.certform # "valid") \/ in.shape = "staleKey"
 
 DecryptOK(cfg, in) ==
    CASE in.sub = "bind"  -> ~CertRefused(cfg, in) /\ ~RecipientRefused(in)
@@ -96,7 +100,7 @@ ModelOut(cfg, in) ==
 \*     twin (validation of the encrypted Response agrees with its plaintext twin in outcome and data)]
 C07_OK(cfg, in, o) ==
    (in.sub = "bind") =>
-      /\ (in.recipient \in {"mismatch", "samekey"} \/ in.shape = "staleKey") => o.res = "reject"
+      /\ (in.recipient \in {"mismatch", "samekey", "oldkey"} \/ in.shape = "staleKey") => o.res = "reject"
       /\ (in.validate /\ (in.certform # "valid" \/ ~InWindow(cfg.now) \/ in.keycfg = "rotating")) => o.res = "reject"
 
 C09_OK(cfg, in, o) == o.res \in {"accept", "reject", "na"} /\ o.dec \in {"ok", "wrong", "error", "na"}
